@@ -258,12 +258,10 @@ fn priors_for(u: &Universe, n: usize) -> (Vec<Vec<u8>>, Vec<Vec<usize>>) {
 
 pub fn c03(rep: &mut Report) {
     let thorough = rep.thorough();
-    let n0 = if thorough { 5 } else { 4 };
-    for hl in [64usize, 4] {
-        if hl == 4 && !thorough {
-            continue;
-        }
-        c03_l0(n0, hl, &mut rep.agg);
+    let n0 = if thorough { 6 } else { 4 };
+    c03_l0(n0, 64, &mut rep.agg);
+    if thorough {
+        c03_l0(5, 4, &mut rep.agg);
     }
     split_classes(&mut rep.agg, false);
     // L1
@@ -313,7 +311,7 @@ pub fn c03(rep: &mut Report) {
     rep.set("distinct_nontrivial", json!(rep.agg.distinct_count("l0_oplogs") + rep.agg.distinct_count("l1_outcomes")));
     rep.set("exhaustive", json!(true));
     rep.set("universes", lab.describe());
-    rep.set("rule", json!(format!("L0: all (prior layout, target) pairs with <= {n0} chunks over 3 identities (+junk, +gap) and all 27 size assignments from {{1,2,3}}, real strip/reorder_ops/reorder_in_place/feed on an instrumented device; L1: full library flow (real chunker scans the prior output) for all sources of <= {n1} words x all prior outputs of <= {n1} letters over words/junk/half word/colliding junk, per universe and hash length; distinct_nontrivial = distinct device operation logs (read/write sequences) observed; CLI leg: the real clone_cmd --seed-output on files (and through the block device path, hook H1) for sources/priors of <= 2/3 letters, local and HTTP archives")));
+    rep.set("rule", json!(format!("L0: all (prior layout, target) pairs with <= {n0} chunks (hash length 64; thorough also <= 5 at hash length 4) over 3 identities (+junk, +gap) and all 27 size assignments from {{1,2,3}}, real strip/reorder_ops/reorder_in_place/feed on an instrumented device; L1: full library flow (real chunker scans the prior output) for all sources of <= {n1} words x all prior outputs of <= {n1} letters over words/junk/half word/colliding junk, per universe and hash length; distinct_nontrivial = distinct device operation logs (read/write sequences) observed; CLI leg: the real clone_cmd --seed-output on files (and through the block device path, hook H1) for sources/priors of <= 2/3 letters, local and HTTP archives")));
     rep.assume("A1: no truncated-hash collision inside a scenario (asserted per scenario)");
     rep.assume("chunk counts above the bounds and data outside the word alphabets are not covered");
 }
